@@ -9,6 +9,8 @@ TYPED = lambda g: (
     f"forall(lambda u, v: implies(gedge({g}, u, v) and getype({g}, u, v) == 'lineage', isinstance(u, Column) and isinstance(v, Column)))"
     f" and forall(lambda u, v: implies(gedge({g}, u, v) and getype({g}, u, v) == 'has_column', isinstance(v, Column) and u in v._parent))"
 )
+TYPED_L = lambda g: f"forall(lambda u, v: implies(gedge({g}, u, v) and getype({g}, u, v) == 'lineage', isinstance(u, Column) and isinstance(v, Column)))"
+TYPED_H = lambda g: f"forall(lambda u, v: implies(gedge({g}, u, v) and getype({g}, u, v) == 'has_column', isinstance(v, Column) and u in v._parent))"
 OTHER_EDGES = lambda touched: (
     f"forall(lambda u, v: implies(not ({touched}), gedge({G}, u, v) == old(gedge({G}, u, v)) and getype({G}, u, v) == old(getype({G}, u, v))))"
 )
@@ -26,6 +28,8 @@ CONTRACTS = [
     Contract(
         MX + "get_column_lineage",
         props=["C06"],
+        # C11: the accessor writes nothing (no memo that a later call with other flags could read back)
+        clause_props={"frame": ["C06", "C11"]},
         params={"exclude_path_ending_in_subquery": "bool", "exclude_subquery_columns": "bool"},
         requires={"default_path_shape": "not exclude_subquery_columns"},
         ensures=PATHS("result"),
@@ -70,6 +74,74 @@ CONTRACTS = [
                 modifies=["self.graph", "*._parent"],
             )
         },
+        at_calls=False,
+    ),
+    # ---- the tag / alias mutators: what a statement holder can contain at all (the WF_H that C03's assembly requires) ----------
+    Contract(
+        SQ + "_property_setter",
+        props=["C06"],
+        params={"value": "Any", "prop": "str"},
+        requires={"a_real_node": "value is not None"},
+        ensures={
+            "node_present_and_tagged": f"gnode({G}, value) and gtag({G}, value, prop) is True",
+            "no_edge_touched": f"forall(lambda u, v: gedge({G}, u, v) == old(gedge({G}, u, v)) and getype({G}, u, v) == old(getype({G}, u, v)))",
+            "no_other_node_touched": f"forall(lambda n: implies(n != value, gnode({G}, n) == old(gnode({G}, n))))",
+            "no_other_tag_touched": f"forall(lambda n, k: implies(n != value or k != prop, implies(gnode({G}, n) and old(gnode({G}, n)), gtag({G}, n, k) == old(gtag({G}, n, k)))))",
+        },
+        raises={"*": {"when": None}},
+        modifies=["self.graph"],
+        at_calls=False,
+    ),
+    Contract(
+        SQ + "add_write",
+        props=["C06"],
+        params={"value": "Union[Table, SubQuery, Path]"},
+        ensures={
+            "tagged_written": f"gnode({G}, value) and gtag({G}, value, 'write') is True",
+            "no_edge_touched": f"forall(lambda u, v: gedge({G}, u, v) == old(gedge({G}, u, v)) and getype({G}, u, v) == old(getype({G}, u, v)))",
+            "graph_stays_typed": f"implies(old({TYPED(G)}), {TYPED(G)})",
+        },
+        raises={"*": {"when": None}},
+        modifies=["self.graph"],
+        at_calls=False,
+    ),
+    Contract(
+        SQ + "add_cte",
+        props=["C06"],
+        params={"value": "SubQuery"},
+        ensures={
+            "tagged_cte": f"gnode({G}, value) and gtag({G}, value, 'cte') is True",
+            "no_edge_touched": f"forall(lambda u, v: gedge({G}, u, v) == old(gedge({G}, u, v)) and getype({G}, u, v) == old(getype({G}, u, v)))",
+        },
+        raises={"*": {"when": None}},
+        modifies=["self.graph"],
+        at_calls=False,
+    ),
+    Contract(
+        SQ + "add_read",
+        props=["C06", "C08"],
+        params={"value": "Union[Table, SubQuery, Path]"},
+        ensures={
+            "tagged_read": f"gnode({G}, value) and gtag({G}, value, 'read') is True",
+            "alias_recorded": f"implies(not isinstance(value, Path), gedge({G}, value, value.alias) and getype({G}, value, value.alias) == 'has_alias')",
+            # with alias_recorded (the one edge that may change is typed has_alias) this gives: a typed graph stays typed
+            "only_the_alias_edge_is_touched": f"forall(lambda u, v: implies(not (u is value and not isinstance(value, Path) and v == value.alias), gedge({G}, u, v) == old(gedge({G}, u, v)) and getype({G}, u, v) == old(getype({G}, u, v))))",
+            "no_edge_between_datasets_is_added": f"forall(lambda u, v: implies(ds(u) and ds(v), gedge({G}, u, v) == old(gedge({G}, u, v))))",
+        },
+        raises={"*": {"when": None}},
+        modifies=["self.graph"],
+        at_calls=False,
+    ),
+    Contract(
+        SQ + "get_table_columns",
+        props=["C06", "C04"],
+        params={"table": "Union[Table, SubQuery]"},
+        returns="list[Column]",
+        ensures={
+            "exactly_the_named_columns_hanging_under_the_relation": f"forall(lambda c: (c in result) == (gedge({G}, table, c) and getype({G}, table, c) == 'has_column' and isinstance(c, Column) and c.raw_name != '*'))",
+        },
+        raises={"*": {"when": None}},
+        modifies=[],
         at_calls=False,
     ),
 ]
